@@ -1132,6 +1132,15 @@ class Interp:
         if meth in ('last', 'nth'):
             xs = self.drain(it); i = len(xs) - 1 if meth == 'last' else args[1]
             return Agg('Option', 1, [xs[i]]) if 0 <= i < len(xs) else Agg('Option', 0, [])
+        if meth in ('max_by_key', 'min_by_key'):
+            xs = self.drain(it)
+            if not xs: return Agg('Option', 0, [])
+            ks = [ckey(self.call_value(args[1], [Ptr(Cell(x))])) for x in xs]
+            best = 0
+            for i_ in range(1, len(xs)):
+                if (meth == 'max_by_key' and ks[i_] >= ks[best]) or (meth == 'min_by_key' and ks[i_] < ks[best]): best = i_
+            return Agg('Option', 1, [xs[best]])
+        if meth == 'peekable' and not isinstance(it, PeekChars): return SeqIter(self.drain(it))
         if meth in ('max', 'min', 'sum'):
             xs = [x.get() if isinstance(x, Ptr) else x for x in self.drain(it)]
             if meth == 'sum': return sum(xs)
@@ -1252,6 +1261,82 @@ class Interp:
             return Agg('Option', 1, [Ptr(it.peek_cell)])
         if e('::is_whitespace'): return self.char_pred('ws', args[0])
         if e('::is_alphanumeric'): return self.char_pred('alnum', args[0])
+        for nm_, lo_hi in (('is_ascii_digit', [(48, 57)]), ('is_ascii_uppercase', [(65, 90)]), ('is_ascii_lowercase', [(97, 122)]), ('is_ascii_alphabetic', [(65, 90), (97, 122)]),
+                           ('is_ascii_alphanumeric', [(48, 57), (65, 90), (97, 122)]), ('is_ascii', [(0, 127)]), ('is_ascii_whitespace', [(9, 10), (12, 13), (32, 32)]), ('is_ascii_punctuation', [(33, 47), (58, 64), (91, 96), (123, 126)])):
+            if e('::' + nm_):
+                c = gg(args[0])
+                if isinstance(c, int): return any(lo <= c <= hi for lo, hi in lo_hi)
+                return z3.Or([z3.And(z3.UGE(c, lo), z3.ULE(c, hi)) for lo, hi in lo_hi])
+        if e('::is_alphabetic') or e('::is_numeric') or e('::is_uppercase') or e('::is_lowercase') or e('::is_digit'):
+            c = gg(args[0])
+            if not isinstance(c, int): raise Unsupported('symbolic ' + base.split('::')[-1])
+            ch = chr(c); k_ = base.split('::')[-1]
+            return {'is_alphabetic': ch.isalpha(), 'is_numeric': ch.isnumeric(), 'is_uppercase': ch.isupper(), 'is_lowercase': ch.islower(), 'is_digit': ch.isdigit()}[k_]
+        if e('::to_ascii_uppercase') or e('::to_ascii_lowercase'):
+            c = gg(args[0])
+            if isinstance(c, int): return ord(chr(c).upper() if e('uppercase') else chr(c).lower()) if c < 128 else c
+            raise Unsupported('symbolic case conversion')
+        if e('str::trim_start') or e('str::trim_end'):
+            cs = list(gg(args[0]).chars)
+            if any(not isinstance(c, int) for c in cs): raise Unsupported('trim on symbolic string')
+            if e('trim_start'):
+                while cs and py_is_ws(cs[0]): cs.pop(0)
+            else:
+                while cs and py_is_ws(cs[-1]): cs.pop()
+            return RStr(cs)
+        if e('str::strip_prefix') or e('str::strip_suffix') or e('str::find') or e('str::split') or e('str::replace') or e('str::lines') or e('str::split_whitespace'):
+            a = gg(args[0])
+            if has_sym(a) or (len(args) > 1 and has_sym(gg(args[1]))): raise Unsupported('symbolic ' + base)
+            sa = show(a.chars)
+            sb = None
+            if len(args) > 1:
+                b_ = gg(args[1]); sb = chr(b_) if isinstance(b_, int) else show(b_.chars)
+            if e('strip_prefix'): return Agg('Option', 1, [mkref(sa[len(sb):])]) if sa.startswith(sb) else Agg('Option', 0, [])
+            if e('strip_suffix'): return Agg('Option', 1, [mkref(sa[:-len(sb)] if sb else sa)]) if sa.endswith(sb) else Agg('Option', 0, [])
+            if e('find'):
+                i_ = sa.find(sb); return Agg('Option', 1, [len(sa[:i_].encode())]) if i_ >= 0 else Agg('Option', 0, [])
+            if e('str::split'): return SeqIter([mkref(x) for x in sa.split(sb)])
+            if e('str::lines'): return SeqIter([mkref(x) for x in sa.splitlines()])
+            if e('str::split_whitespace'): return SeqIter([mkref(x) for x in sa.split()])
+            if e('replace'):
+                c_ = gg(args[2]); return mkstr(sa.replace(sb, chr(c_) if isinstance(c_, int) else show(c_.chars)))
+        if e('slice::sort') or e('slice::sort_unstable') or e('Vec::sort') or e('Vec::dedup') or e('slice::sort_by_key') or e('slice::sort_by'):
+            v = gg(args[0]); items = v.items if isinstance(v, RVec) else None
+            if items is None: raise Unsupported('sort on a slice view')
+            if e('dedup'):
+                out_ = []
+                for x in items:
+                    if not out_ or self.truth(self.equal(out_[-1], x)) is False: out_.append(x)
+                items[:] = out_; return ()
+            import functools
+            if e('sort_by_key'): items.sort(key=lambda x: ckey(self.call_value(args[1], [Ptr(Cell(x))])))
+            elif e('sort_by'): items.sort(key=functools.cmp_to_key(lambda x, y: self.call_value(args[1], [Ptr(Cell(x)), Ptr(Cell(y))]).variant - 1))
+            else: items.sort(key=ckey)
+            return ()
+        if e('slice::windows') or e('slice::chunks'):
+            sl = gg(args[0]); sl = sl if isinstance(sl, Slice) else Slice(sl, 0, len(sl.items)); n_ = args[1]
+            if e('windows'): return SeqIter([Slice(sl.vec, sl.lo + i, sl.lo + i + n_) for i in range(0, len(sl) - n_ + 1)])
+            return SeqIter([Slice(sl.vec, sl.lo + i, min(sl.lo + i + n_, sl.hi)) for i in range(0, len(sl), n_)])
+        if e('slice::iter_mut') or e('Vec::iter_mut'):
+            v = gg(args[0]); v = v if isinstance(v, Slice) else Slice(v, 0, len(v.items)); return SliceIter(v)
+        if e('Vec::retain'):
+            v = g(args[0]); v.items[:] = [x for x in v.items if self.truth(self.call_value(args[1], [Ptr(Cell(x))]))]; return ()
+        if e('Vec::drain') or e('Vec::split_off'):
+            v = g(args[0])
+            if e('split_off'):
+                tail = v.items[args[1]:]; del v.items[args[1]:]; return RVec(tail)
+            r_ = args[1]; lo = r_.fields[0] if r_.name in ('Range', 'RangeFrom') else 0
+            hi = r_.fields[1] if r_.name == 'Range' else (r_.fields[0] if r_.name == 'RangeTo' else len(v.items))
+            out_ = v.items[lo:hi]; del v.items[lo:hi]; return SeqIter(out_)
+        if e('Vec::first') or e('Vec::last'):
+            v = g(args[0])
+            if not v.items: return Agg('Option', 0, [])
+            return Agg('Option', 1, [Ptr(Cell(v)).sub(0 if e('first') else len(v.items) - 1)])
+        if e('Vec::from') or e('slice::into_vec'):
+            src = gg(args[0])
+            if isinstance(src, Agg) and src.name == 'array': return RVec(src.fields)
+            if isinstance(src, Cell): src = src.v
+            return RVec(list(src.fields) if isinstance(src, Agg) else [deep_clone(x) for x in self.drain(src)])
         if e('slice::iter') or e('Vec::iter') or e('::iter') and isinstance(gg(args[0]), (Slice, RVec)):
             v = gg(args[0])
             return SliceIter(v if isinstance(v, Slice) else Slice(v, 0, len(v.items)))
